@@ -439,6 +439,9 @@ func posInt(v sdk.Int) sdk.Int {
 	return v
 }
 
+// cfgTriggerBoost is set per world by the scenario wrapper (C18 runs trigger interest calculation far more often).
+var cfgTriggerBoost int64
+
 func cdpGens() []OpGen {
 	return []OpGen{
 		{"vault.create", 14, func(w *World, r *Rng) *Event {
@@ -574,7 +577,7 @@ func cdpGens() []OpGen {
 			amt := amtAround(r, prod.In.Decimals, 1, 100000)
 			return w.TxEvent("vault.deposit_draw", a, &vaulttypes.MsgDepositAndDrawRequest{From: a.Bech(), AppId: prod.AppID, ExtendedPairVaultId: prod.ExtID, UserVaultId: v.Id, Amount: amt})
 		}},
-		{"vault.interest", 4, func(w *World, r *Rng) *Event {
+		{"vault.interest", 4 + 30*int(cfgTriggerBoost), func(w *World, r *Rng) *Event {
 			a := w.cdpUser(r)
 			prod := w.pickProduct(r, false)
 			v, ok := w.userVault(w.cdpUser(r), prod)
